@@ -39,7 +39,7 @@ def handleParse (toks : List String) : String :=
         "ok" ++ String.join (raws.map fun r =>
           let j := parseMember (memberView r)
           " | " ++ hexOfBytes (fixID j.id) ++ " " ++ hexOfBytes j.m ++ " " ++ hexOfBytes j.p ++ " " ++
-            (if j.errs.isEmpty then "ok" else ",".intercalate (j.errs.eraseDups.map toString)))
+            (if (parsedFlag j).isEmpty then "ok" else ",".intercalate ((parsedFlag j).eraseDups.map toString)))
     | none => "bad-op"
   | _ => "bad-op"
 
